@@ -22,6 +22,7 @@ impl HalfSpace {
     const EPSILON: f64 = 1e-13;
 
     #[cfg_attr(kani, kani::requires(verif_kani_half_space::new_pre(n, p)))]
+    #[cfg_attr(kani, kani::modifies(verif_kani_half_space::ghost()))]
     #[cfg_attr(kani, kani::ensures(|r: &Self| verif_kani_half_space::new_post(r, n, p, right_idx, shift)))]
     pub fn new(n: DVec3, p: DVec3, right_idx: Option<usize>, shift: Option<DVec3>) -> Self {
         let errb = Self::EPSILON * (1. + n.abs().dot(p.abs()));
@@ -40,6 +41,7 @@ impl HalfSpace {
     /// of normal), `-1.` when the `vertex` lies on the negative half space
     /// and `0.` when a more precise test is needed
     #[cfg_attr(kani, kani::requires(verif_kani_half_space::clip_pre(self, vertex)))]
+    #[cfg_attr(kani, kani::modifies(verif_kani_half_space::ghost()))]
     #[cfg_attr(kani, kani::ensures(|r: &f64| verif_kani_half_space::clip_post(self, vertex, *r)))]
     pub fn clip(&self, vertex: DVec3) -> f64 {
         let clip = self.plane.n.dot(vertex) - self.d;
